@@ -216,10 +216,10 @@ class Report:
         os.makedirs(os.path.join(ROOT, "evidence"), exist_ok=True)
         with open(os.path.join(ROOT, "evidence", "%s.json" % self.pid), "w") as f:
             json.dump(_jsonable(doc), f, indent=1)
+        if self.violations:
+            return 1          # violation lines already printed are valid even if a later stage of the check crashed
         if crash:
             return 3
-        if self.violations:
-            return 1
         if n_ob == 0 and not self.bounded_items:
             print("VACUOUS: property %s generated no obligations and no bounded evaluations" % self.pid)
             return 3
